@@ -148,9 +148,20 @@ func mapOrderReference(cs mapOrderCase, c10prefix []*types.WorkObject) (*mapOrde
 
 // mapOrderFollow replays ref's blocks on a fresh node with the draw fixed to v; returns (key, desc).
 func mapOrderFollow(ref *mapOrderRef, v uint64) (string, string, error) {
+	return mapOrderFollowCfg(ref, v, false)
+}
+
+// mapOrderFollowCfg: snapshots=true gives the follower's state processor a state snapshot tree (the
+// reference node reads everything from the tries): the flat layer is a cache, the outputs of
+// Process and the stored state must not depend on it.
+func mapOrderFollowCfg(ref *mapOrderRef, v uint64, snapshots bool) (string, string, error) {
 	setMapIter(true, v)
 	defer setMapIter(false, 0)
-	f, err := newScen(3, true, nil)
+	f, err := newScen(3, true, func(cfg *core.VNodeConfig) {
+		if snapshots {
+			cfg.SnapshotLimit = 16
+		}
+	})
 	if err != nil {
 		return "", "", err
 	}
@@ -303,6 +314,32 @@ func runMapOrder(c *vx.Ctx) {
 						c.Violate("process", key, desc, map[string]any{"case": cs, "draw": v, "part": "process"})
 					}
 					break
+				}
+			}
+			if !bad {
+				// the same blocks on a follower whose state processor runs with a state snapshot tree
+				key, desc, err := mapOrderFollowCfg(ref, 0, true)
+				if err != nil {
+					c.HarnessError(fmt.Sprintf("case %+v snapshot follower: %v", cs, err))
+					return
+				}
+				p.Transitions += int64(len(ref.all))
+				p.Traces += int64(len(ref.all) - ref.first)
+				if key != "" {
+					bad = true
+					cs := cs
+					key = strings.Replace(key, "map-order:", "state-snapshots:", 1)
+					desc = "follower with a state snapshot tree (reference: tries only): " + strings.Replace(desc, "map-iteration draw 0x0: ", "", 1)
+					if c.Confirm(desc, func() string {
+						r2, _, e2 := mapOrderReference(cs, c10prefix)
+						if e2 != nil || r2 == nil {
+							return ""
+						}
+						k2, _, _ := mapOrderFollowCfg(r2, 0, true)
+						return strings.Replace(k2, "map-order:", "state-snapshots:", 1)
+					}) {
+						c.Violate("process", key, desc, map[string]any{"case": cs, "draw": 0, "part": "process", "snapshots": true})
+					}
 				}
 			}
 			if !bad {
@@ -513,6 +550,7 @@ func replayMapOrder(c *vx.Ctx, v vx.Violation) string {
 		Word string       `json:"word"`
 		A    int          `json:"a"`
 		B    int          `json:"b"`
+		Snap bool         `json:"snapshots"`
 	}
 	if err := jsonUnmarshal(raw, &r); err != nil {
 		return "bad replay: " + err.Error()
@@ -556,7 +594,7 @@ func replayMapOrder(c *vx.Ctx, v vx.Violation) string {
 	if err != nil || ref == nil {
 		return fmt.Sprintf("harness: reference: %v", err)
 	}
-	_, desc, err := mapOrderFollow(ref, r.Draw)
+	_, desc, err := mapOrderFollowCfg(ref, r.Draw, r.Snap)
 	if err != nil {
 		return "harness: " + err.Error()
 	}
